@@ -604,11 +604,27 @@ func (a *A) ruleLossless() {
 				vs[TermOf(l, nil).String()] = true
 			}
 		}
+		// (a term that reads through a merged variable - the match slice picked by a helper that was folded in - is
+		// met on a path with the variable resolved: matched up to the merged parts)
+		var vsPat []*regexp.Regexp
+		for k := range vs {
+			if strings.Contains(k, "phi@") && len(regexp.MustCompile(`phi@[A-Za-z0-9_]+`).ReplaceAllString(k, "")) >= 12 {
+				q := regexp.QuoteMeta(k)
+				q = regexp.MustCompile(`phi@[A-Za-z0-9_]+`).ReplaceAllString(q, `.+`)
+				vsPat = append(vsPat, regexp.MustCompile("^"+q+"$"))
+			}
+		}
 		spec := OrdSpec{Roles: []string{"x", "M", "m"},
 			Invariant: func(r map[string]int, _ map[string]bool) bool { return r["m"] < r["M"] },
 			Role: func(t *Term) string {
-				if vs[t.String()] {
+				ts := t.String()
+				if vs[ts] {
 					return "x"
+				}
+				for _, re := range vsPat {
+					if re.MatchString(ts) {
+						return "x"
+					}
 				}
 				return boundRole(t)
 			}}
